@@ -10,6 +10,8 @@ CONSTANTS
   MacroCloses = {}
   SnipDeeps = {}
   FileChains = {}
+  SnipSplits = {}
+  FileSplits = {}
   Devs = {}
 INVARIANTS EmitRows
 CHECK_DEADLOCK FALSE
